@@ -331,6 +331,13 @@ Theorem C05_concurrent_memory :
 Proof. exact memory_concurrent. Qed.
 Print Assumptions C05_concurrent_memory.
 
+(* the outcome set memory-store races are compared with consists of runs of that system *)
+Theorem C05_concurrent_memory_explored :
+  forall (H : str -> str -> str) fuel st st',
+    In st' (explore_m H fuel st) -> exists sched, mrun H st sched = Some st'.
+Proof. exact explore_m_reachable. Qed.
+Print Assumptions C05_concurrent_memory_explored.
+
 (* the outcome set the implementation's concurrent runs are compared with (exhaustive
    interleaving of the micro-steps, [explore]) consists of runs of the transition
    system only, so the invariant above holds for each of those outcomes *)
